@@ -312,7 +312,7 @@ public:
         if (!diff)
             return 0;
 
-        const auto diff_in_bit = (8 * sizeof(Int) - 1) - clz(diff);
+        const auto diff_in_bit = (8 * sizeof(diff) - 1) - clz(diff);
 
         const auto row = diff_in_bit / radix_bits;
         const auto bucket_in_row = ((x >> (radix_bits * row)) & mask) - row;
